@@ -642,7 +642,15 @@ public:
     suspend_point<bool> set_value(Args && ... args) {
         auto m = claim();
         if (m) {
-            m->set(std::forward<Args>(args)...);
+            try {
+                m->set(std::forward<Args>(args)...);
+            } catch (...) {
+                //the promise is already claimed - when the construction of the value throws,
+                //the future must not stay pending forever: resolve it without a value
+                //(as a dropped promise does) and let the caller see the exception
+                m->resolve();
+                throw;
+            }
             return suspend_point<bool>(m->resolve(), true);
         }
         return suspend_point<bool>(false);
